@@ -2,6 +2,7 @@ import Driver.Util
 import Driver.Beh
 import ESV.Decomp.Sem
 import ESV.Decomp.Optimize
+import ESV.Decomp.SemE
 open Lean Drv ESV ESV.Beh ESV.Decomp
 
 namespace Drv.DecompD
@@ -105,8 +106,28 @@ def validateFront (rs : List (List MOp)) (labels : List Lbl) (rtns : List (List 
       (.bool (ctxGuard items && namesGuard items))
   Json.mkObj [("wf", .bool (wfSet rs)), ("resolver", .arr t3.toArray), ("graph", .arr t4.toArray)]
 
+/-- validation of the REAL graphs after `optimize_paths` against the REAL base graphs (edge-based reading), from the
+routine's first vertex, plus agreement of the two readings on the base graph -/
+def validateOpt (labels : List Lbl) (rtns : List (List Item)) (graphs opts : List Graph) : Json :=
+  let res := ((rtns.zip graphs).zip opts).zipIdx.map fun (((items, g), o), k) =>
+    let fuel := g.vs.length + o.vs.length + 8
+    let budget := (g.vs.length + 4) * (o.vs.length + 4) + 64
+    let del := optimizeGoDeleted labels g
+    let start := renumber del 0
+    let a := (BehD.verdictJson g.stepE o.stepE fuel budget 0 start).setObjVal! "r" (jNat k)
+    let b := BehD.verdictJson g.step g.stepE fuel budget 0 0
+    (((a.setObjVal! "guard" (.bool (ctxGuard items && namesGuard items))).setObjVal! "readings" (b.getObjValD "verdict")).setObjVal!
+      "graph_ok" (.bool (graphOk g))).setObjVal! "no_silent_cycle" (.bool (noSilentCycle g))
+  Json.mkObj [("opt", .arr res.toArray)]
+
 def handle (op : String) (j : Json) : R Json := do
   match op with
+  | "decomp.validate_opt" =>
+    let labels ← (← asArr (← fld j "labels")).mapM lblOf
+    let rtns ← (← asArr (← fld j "rtns")).mapM fun r => do (← asArr r).mapM itemOf
+    let graphs ← (← asArr (← fld j "graphs")).mapM graphOf
+    let opts ← (← asArr (← fld j "opt")).mapM graphOf
+    pure (validateOpt labels rtns graphs opts)
   | "decomp.validate" =>
     let rs ← (← asArr (← fld j "rs")).mapM fun r => do (← asArr r).mapM BehD.mopOf
     let labels ← (← asArr (← fld j "labels")).mapM lblOf
